@@ -57,6 +57,13 @@ def run_case(case):
             elif a[0] == "stop":
                 loop.call_soon(st["src"].stop)
                 loop.settle()
+            elif a[0] == "multi":
+                # several lifecycle calls back to back, with no turn of the event loop in between
+                def many(calls=a[1]):
+                    for c in calls:
+                        getattr(st["src"], c)()
+                loop.call_soon(many)
+                loop.settle()
             elif a[0] == "ack":
                 if st["out"]:
                     f = st["out"].pop(0)
